@@ -106,11 +106,11 @@ func (h histWallet) same(when string) (vs []evid.Violation) {
 
 func judgeHist(c HistCase) (vs []evid.Violation) {
 	type made struct {
-		file    []byte
-		secret  []byte
-		pw      []byte
-		lib     bool
-		intact  func() bool
+		file   []byte
+		secret []byte
+		pw     []byte
+		lib    bool
+		intact func() bool
 	}
 	var all []histWallet
 	members := make([]made, len(c.Members))
